@@ -155,6 +155,17 @@ func seqOps() []seqOp {
 		{"list.Sort(FromSeq)", func(p *pool, s, t fp.Seq[int]) [][]int { return one(list.Sort(list.FromSeq(s), asc)) }, false},
 		{"list.ReverseSeq", func(p *pool, s, t fp.Seq[int]) [][]int { return one(iterator.FromList(list.ReverseSeq(s)).ToSeq()) }, false},
 		{"list.FromSeq.ToSeq", func(p *pool, s, t fp.Seq[int]) [][]int { return one(iterator.FromList(list.FromSeq(s)).ToSeq()) }, false},
+		{"monoid.MergeSeq.Combine(s,t)", func(p *pool, s, t fp.Seq[int]) [][]int {
+			return one(monoid.MergeSeq[int]().Combine(s, t))
+		}, true},
+		{"monoid.MergeSlice.Combine(s,t)", func(p *pool, s, t fp.Seq[int]) [][]int {
+			return one(monoid.MergeSlice[int]().Combine([]int(s), []int(t)))
+		}, true},
+		{"monoid.Dual(MergeSeq).Combine + seq.Reduce(MergeSeq)", func(p *pool, s, t fp.Seq[int]) [][]int {
+			a := monoid.Dual(monoid.MergeSeq[int]()).Combine(fp.Dual[fp.Seq[int]]{GetDual: s}, fp.Dual[fp.Seq[int]]{GetDual: t})
+			b := seq.Reduce(fp.Seq[fp.Seq[int]]{s, t, s}, monoid.MergeSeq[int]())
+			return [][]int{a.GetDual, b}
+		}, true},
 		// consumers: results are not Seq[int]; they only must leave their inputs alone
 		{"seq.Fold/Reduce/FoldMap/FoldRight", func(p *pool, s, t fp.Seq[int]) [][]int {
 			seq.Fold(s, 0, func(a, b int) int { return a + b })
